@@ -21,7 +21,7 @@ import sys
 from concurrent.futures import ThreadPoolExecutor
 
 VERIF = os.path.dirname(os.path.dirname(os.path.abspath(__file__)))
-TMP = "/tmp/rg"
+TMP = f"/tmp/rg-{os.getpid()}"
 ALL = [f"C{i:02d}" for i in range(1, 21)]
 
 
@@ -34,9 +34,37 @@ def prepare(kind, name, patch=None):
     d = os.path.join(TMP, kind, name)
     shutil.rmtree(d, ignore_errors=True)
     os.makedirs(d)
+    base = BASE[0]
+    mf = f"{VERIF}/{kind}/{name}/meta.json"
+    if patch is None and os.path.exists(mf):
+        vb = json.load(open(mf)).get("base")
+        if vb:
+            base = vb
+            VARIANT_BASE[(kind, name)] = vb
     patch = patch or f"{VERIF}/{kind}/{name}/patch.diff"
-    rc, out = sh(f"git -C /repo archive {BASE[0]} | tar -x -C {d} && cd {d} && git apply --whitespace=nowarn {patch}")
+    rc, out = sh(f"git -C /repo archive {base} msmart reference | tar -x -C {d} && cd {d} && git apply --whitespace=nowarn {patch}")
     return rc == 0, out
+
+
+VARIANT_BASE = {}          # (kind, name) -> /repo revision the variant was written for (meta.json "base"), when it is not HEAD
+_BASE_FINDINGS = {}        # (revision, property) -> finding lines of the plain tree at that revision
+
+
+def base_findings(rev, p):
+    if (rev, p) not in _BASE_FINDINGS:
+        d = os.path.join(TMP, "rev", rev)
+        if not os.path.isdir(d):
+            os.makedirs(d, exist_ok=True)
+            sh(f"git -C /repo archive {rev} msmart reference | tar -x -C {d}")
+        _rc, out = sh(f"cd {VERIF} && ./check {p} --root {d} --no-write")
+        _BASE_FINDINGS[(rev, p)] = {rule_site(l) for l in findings(out)}
+    return _BASE_FINDINGS[(rev, p)]
+
+
+def rule_site(line):
+    """rule id + function of a finding line (`  C08.b msmart/lan.py:? msmart.lan.LAN.authenticate: ...`): what identifies a finding across trees"""
+    parts = line.split()
+    return (parts[0], parts[2].rstrip(":")) if len(parts) >= 3 else (line,)
 
 
 BASE = ["HEAD"]       # --base <rev>: evaluate external patches against the /repo revision they were written for
@@ -74,6 +102,10 @@ def one(job):
     root = "/repo" if (kind == "clean" and name == "repo") else f"{TMP}/{kind}/{name}"
     rc, out = sh(f"cd {VERIF} && ./check {p} --root {root} --no-write")
     msg = [l.strip()[:300] for l in out.splitlines() if (" -- " in l and l.startswith("  C")) or l.startswith("ANALYSIS-ERROR")]
+    if (kind, name) in VARIANT_BASE and kind in ("neutral", "undecided") and rc == 1:
+        mine = {rule_site(l) for l in findings(out)}
+        if mine and mine <= base_findings(VARIANT_BASE[(kind, name)], p):
+            rc = 0          # nothing beyond what the revision the variant was written for itself reports (a defect repaired later in /repo)
     if BASELINE and kind == "neutral" and rc != 0:
         new = findings(out) - BASELINE.get(p, set())
         if not new:
